@@ -322,6 +322,7 @@ def strip_orphans(s: dict) -> dict:
     for v in s.values():
         if isinstance(v, dict):
             v.pop("underfloor_heating", None)     # UFH controllers/circuits are not in the property's reload list (and load_tcs does not load circuits)
+            v.pop("orphans", None)                # nor is a controller's orphans list (a UFC listed there is adopted as a UFH controller on loading)
     s = shrink(s)
     return {k: v for k, v in s.items() if not k.startswith("orphans_")}
 
